@@ -138,8 +138,14 @@ static inline std::vector<std::pair<size_t, size_t>> fragments(size_t len, const
 // then body fragments through `wcb` until a callback returns a different count (transport stops).
 // Returns true when everything was accepted.
 typedef size_t (*WCB)(void *, size_t, size_t, void *);
+// One header-callback invocation.  The bytes are handed over in a heap block of exactly their length (not NUL-terminated, as
+// libcurl's are not guaranteed to be), so that a read past the end of what was delivered is a sanitizer report.
+static inline bool header_line(zckDL *d, const std::string &l) {
+    char *p = (char *)malloc(l.size() ? l.size() : 1); if (!l.empty()) memcpy(p, l.data(), l.size());
+    size_t r = zck_header_cb(p, 1, l.size(), d); free(p); return r == l.size();
+}
 static inline bool deliver(zckDL *d, const Response &r, const std::vector<size_t> &cuts, WCB wcb, size_t *calls = nullptr, bool keep_going = false) {
-    for (auto &l : r.header_lines) { std::string t = l; if (zck_header_cb((char *)t.data(), 1, t.size(), d) != t.size()) return false; }
+    for (auto &l : r.header_lines) { if (!header_line(d, l)) return false; }
     bool ok = true;
     for (auto &f : fragments(r.body.size(), cuts)) {
         Bytes tmp(r.body.begin() + f.first, r.body.begin() + f.first + f.second);      // the library may scribble on the buffer (it does: NUL-terminates part headers)
